@@ -46,6 +46,7 @@ def isAcyclic (nCC : Bool → Nat) (m : Mat) (directed : Option Bool) : Except P
   | .error e => .error e
   | .ok directed =>
     if (selfLoops m).length > 0 then .ok false
+    else if m.nRow != m.nCol then .error .valueError      -- scipy: "graph must be shape (N, N)"
     else
       let nNodes := m.nRow
       if directed then .ok (nCC directed == nNodes)
@@ -135,7 +136,8 @@ def getCyclesWith (fuel : Nat) (nCC : Bool → Nat) (labels : Bool → List Nat)
   | .ok directed =>
     let cycles0 := (selfLoops m).map fun v => [v]
     let nNodes := m.nRow
-    if directed && nCC directed == nNodes then .ok (some cycles0)
+    if m.nRow != m.nCol then .error .valueError           -- scipy refuses a matrix that is not square
+    else if directed && nCC directed == nNodes then .ok (some cycles0)
     else if !directed && (nCC directed : Int) == (nNodes : Int) - ((m.nnz / 2 : Nat) : Int) then .ok (some cycles0)
     else
       let ccLabels := labels directed
@@ -277,6 +279,8 @@ def distancesFrom (m : Mat) (a0 : Rows) (root : List Nat) : Except PyErr (Option
 
 /-- the directed branch -/
 def breakDirected (fuel : Nat) (ext : BreakExt) (m : Mat) (root : List Nat) : Except PyErr BreakOut :=
+  if m.nRow != m.nCol then .error .valueError             -- scipy refuses a matrix that is not square
+  else
   let a0 := noLoopRows m
   let ccLabels := ext.labelsNoLoop true
   let cycleLabels := (npUnique ccLabels).filter fun v => ccLabels.count v > 1
